@@ -90,6 +90,15 @@ def discharge(ob, axioms, budget, use_cvc5=True, seed=0, both=False):
             return Result(name=ob.name, kind=ob.kind, verdict='discharged', backend=backend + '(ground slice)', seconds=round(time.time() - t0, 4),
                           note=ob.note, reason=None, expect=ob.expect, func=ob.func)
     r, dt, s = check_z3(ob, axioms, budget['z3_ms'], seed)
+    if r == z3.unknown:
+        # quantifier instantiation is seed-sensitive: a proof that takes milliseconds with one seed can time out with
+        # another.  Retry with other seeds before leaving the obligation open (verdicts must not depend on VERIF_SEED).
+        for k in (1, 2, 3):
+            r2, dt2, s2 = check_z3(ob, axioms, max(2000, budget['z3_ms'] // 2), seed + 7919 * k)
+            dt += dt2
+            if r2 != z3.unknown:
+                r, s = r2, s2
+                break
     verdict, reason = None, None
     if r == z3.unsat:
         verdict = 'discharged'
